@@ -200,3 +200,24 @@ _MORE7 = {
 }
 for _pid, _t in _MORE7.items():
     CHECKS[_pid]["text"] += _t
+_MORE8 = {
+    "C01": " Corpus maps named x and <prefix>_x.",
+    "C02": " The re-encoder also rewrites map entries (overridden earlier key / value occurrences, free order).",
+    "C03": " Shapes: alias-named fields, nested keyword-named types, foreign *Entry types, prefix-named maps, deprecated parts, mutually importing packages (validated by marker as well); per-name shadow probes; dunder enum value probe.",
+    "C04": " A hand-written enum without a zero member with the number 0 in every position.",
+    "C05": " Corpus enum Edge: value names that start / end with underscores.",
+    "C06": " Every cell / fresh / combination case also on the pydantic_dataclasses output; single-member groups (Solo).",
+    "C07": " The inheritance target with a subclass that re-declares inherited fields as members of one group.",
+    "C08": " Half of the older readers have an own __post_init__ that calls the base's (what the plugin generates for deprecated fields).",
+    "C09": " Packed lists of 2^k-1 / 2^k / 2^k+1 elements (k up to 16, thorough 18); histories merge unknown-only data into an object measured before.",
+    "C10": " The bundled google.protobuf classes (Struct, ListValue, ...) as stream messages.",
+    "C11": " A stream-stream attempt abandoned by wait_for, then a retry with the same request AsyncChannel.",
+    "C12": " Bystander receivers blocked on another channel; configurations without receivers until the channel is closed.",
+    "C13": " Fixed reference shapes (alias-named fields, nested keyword names, foreign *Entry types, import public, mutually importing packages) in both file orders, std and pydantic: annotation -> class by marker, the runtime's decoding class, a value through the reference.",
+    "C17": " Ten-byte varints whose last byte overflows 64 bits as values; invalid content inside message-typed payloads, also of types without fields; Empty as a decoded type.",
+    "C18": " Freshly constructed empty sub-messages x option sets (exhaustive over the corpus); the round-8 shapes; alias-named field probe.",
+    "C19": " The inheritance target: subclass fields with odd names through camelCase keys after the base class used from_dict first.",
+    "C20": " Members named value / name; corpus enum Edge (deprecated earlier alias) among the plugin definitions.",
+}
+for _pid, _t in _MORE8.items():
+    CHECKS[_pid]["text"] += _t
